@@ -21,7 +21,7 @@ def run(ctx, model_ok, deep=False):
 '''
 specs = {
  "c01": dict(doc="C01 -- no token accepted without a valid signature: theorems + verify-sig mutation suite on both providers + matrix sample.",
-   mods=["Jwt.Props.C01", "Jwt.Props.C05Ec"], files=["Jwt/Props/C01.lean", "Jwt/Props/C05Ec.lean", "Jwt/Lemmas/EcFrame.lean"], gen=1,
+   mods=["Jwt.Props.C01", "Jwt.Props.C05Ec"], files=["Jwt/Props/C01.lean", "Jwt/Props/C05Ec.lean", "Jwt/Lemmas/EcFrame.lean"], gen=2,
    level="Lean theorem C01_sound for every Crypto oracle, JSON codec, provider, checker state, callback and token: rc=0 with a key => token splits at its first two dots, header alg = pinned alg, and the third segment is oracle-valid under that key/alg over the raw first two segments (HMAC: textual equality via jwt_strcmp = 0 <-> equal). For ES* the provider glue's r||s handling is inside the model (Jwt/EcFrame.lean over constants regenerated from both sign-verify.c): C01_ecdsa_exact_form proves that on either provider only the algorithm's exact 2w-octet form reaches the library, as the pair of integers it denotes. Cryptographic validity itself is the oracle; model tied to the code by systematic mutation of valid tokens for every key type on OpenSSL and GnuTLS against an independent EVP oracle.",
    assume=["base64 text malleability of the signature segment (same decoded bytes) is outside C01 for public-key algorithms and counted, not alarmed (DESIGN 10.1)"],
    body='''    import ecframe
@@ -76,7 +76,7 @@ specs = {
          "all strings of length 1-4 (quick) / 1-5 (thorough) over {e . = A - 0x80}; 12x10x8 header/payload/signature part grid; random strings over a token alphabet and over all bytes; random edits of real tokens; 1k-64k inputs; x checkers {no key, oct, RSA, P-256, Ed25519}; independent well-formedness predicate as falsifier", False),
     ])'''),
  "c09": dict(doc="C09 -- key-strength floor (verification side): theorems + boundary-exhaustive strength suite.",
-   mods=["Jwt.Props.C09"], files=["Jwt/Props/C09.lean"], gen=2,
+   mods=["Jwt.Props.C09"], files=["Jwt/Props/C09.lean"], gen=3,
    level="Lean theorems for every bits:Nat: the gates pass exactly per the documented floor table; every primitive call made by verification satisfies it (trace); acceptance implies it; the gate is live at/above the floor; the same for signing (generate). Tied to the code by every oct length 1-160 x HS256/384/512 and every generated RSA/EC/OKP key x every public-key algorithm with oracle-signed tokens.",
    assume=[],
    body='''    extra = {"rsa1024": K.gen_key("rsa", 1024, ctx.scratch), "rsa2047": K.gen_key("rsa", 2047, ctx.scratch),
